@@ -157,6 +157,7 @@ def c14_tables(ctx, prog):
     from . import tablebounds as TB
     helpers = TB.find_index_helpers(prog)
     total = 0
+    undet = []
     for F in prog.funcs_all:
         if not F.file.startswith(prog.root) or "/test/" in F.file or "/examples/" in F.file:
             continue
@@ -164,6 +165,9 @@ def c14_tables(ctx, prog):
         def report(kind, node, table, ok, det, F=F):
             if ok is None:
                 raise AnalysisBroken("C14.L5t: %s: %s" % (site_of(F, node), det.get("why")))
+            if kind == "undetermined":
+                undet.append("%s:%d %s" % (F.name, node["l"][0], expr_str(node)[:40]))
+                return
             if kind == "subscript":
                 ctx.ob("C14.L5t", "%s:%d %s" % (F.name, node["l"][0], expr_str(node)[:50]), "the largest value the index can take is below the "
                        "number of elements of `%s`, whatever the element count is" % table, ok, det, nontrivial=True)
@@ -171,6 +175,7 @@ def c14_tables(ctx, prog):
                 ctx.ob("C14.L5t", "%s:%d %s" % (F.name, node["l"][0], expr_str(node)[:50]), "the count handed on with `%s` does not exceed its "
                        "number of elements" % table, ok, det, nontrivial=True)
         total += TB.check_function(prog, F, helpers, report)
+    ctx.extra["table_subscripts_without_verdict"] = undet[:20]
     ctx.floor("C14.L5t", 60)
 
 
